@@ -27,11 +27,14 @@ CLAIMED = {
         "(generated clean streams x chunk sizes), labelled bounded and not counted as proved; hence level 'other'.",
    note="Bounded stand-in: 150 (quick) / 3000 (thorough) generated streams of up to 200 readouts. Assumed prelude contracts as for C04.",
    technique=DED + " for the per-call contracts; bounded run-time lemma check for the clean-stream composition", design="DESIGN.md section 9 C05"),
- "C02": dict(level="other",
-   text="Deductive part (unbounded, four configurations): the exact transition of the reader on every input octet (clauses T1-T10 of _read_next's contract), the frame contracts of C01 (validity, exact payload and header fields for "
-        "any address length), the 2047-octet limit. The clean-stream lemma (every well-formed frame exactly once, in order, any chunking) is an induction over the wire using these clauses and is run as a BOUNDED stand-in on the real reader; hence 'other'.",
-   note="Bounded stand-in: 500/12000 generated clean streams (1..5 frames, addresses 1..4 octets, flag/escape payloads, header-only and 2047-octet frames, fill, noise, 4 chunking modes, 4 configurations).",
-   technique=DED + " for the transition and frame contracts; bounded run-time lemma check for the clean-stream composition", design="DESIGN.md section 9 C02"),
+ "C02": dict(level="proof",
+   text="Deductive, unbounded, four configurations: (1) the exact transition of the reader on every input octet (clauses T1-T13 of _read_next's contract, proved on the real source) and the frame contracts of C01 (validity, exact payload and "
+        "header fields for any address length); (2) the clean-stream lemma as a second contract of the real read(), proved through _read_next's contract: on a stream that from its first flag on consists of flags and well-formed frames, "
+        "read(chunk) takes 'the reader holds what an ideal un-stuffer holds at stream position g' to the same at g+len(chunk) and returns exactly one frame per closing flag in the chunk, in order, each the frame that was sent and valid; a new reader "
+        "skips flag-free noise. Pre- and postcondition are the same predicate of the position, so the calls compose for every splitting (sequential composition). Any number and length of frames (<= 2047 octets) and chunks.",
+   note="Assumed: the description of a clean stream (hypotheses CLEAN(p) in props/clean_hdlc.py; checked against every generated clean stream by the bounded run ideal_check, reachability of every step kind by cover canaries); the free choice of the "
+        "array that represents an empty frame (ghost function new_frame_array). Bounded cross-checks on the real reader: 500/12000 generated clean streams, 300/6000 streams with the contract evaluated after every call.",
+   technique=DED + "; second contract of read() with ghost functions of the stream position (ideal un-stuffer), composed through the callee's contract", design="DESIGN.md section 9 C02 and 14.6"),
  "C06": dict(level="other",
    text="Deductive part (unbounded, four configurations): read() is entered and left with nothing unconsumed; every loop iteration is one _read_next step whose effect is a function of (mode, frame octets, raw octets, pending escape) and the "
         "next octet (clauses T1-T10); hunt-mode trimming only skips no-op octets; the state is tied to the ghost input stream; generic fold-split lemma over an uninterpreted step function. The final induction composing these into chunk independence "
